@@ -74,6 +74,13 @@ def sweeps(quick):
     for n in range(980, 1180, step):
         out.append(E([S(1)], [n]))
         out.append(E([S(1)], [300, n - 300, 2]))
+    # data-version filters (a cluster left out of / kept in the answer of a whole-endpoint read) and event filters
+    for n in range(980, 1130, step * 2):
+        for dvf in ("match", "mismatch"):
+            out.append({"items": [S(300), S(n), L(200, 200, 200), S(n)], "split": 2, "dvf": dvf})
+            out.append({"items": [S(n), L(*([90] * 30)), S(7)], "split": 1, "dvf": dvf, "events": "wild", "evs": [10, 600, 20, 700], "evmin": 2})
+    out.append({"items": [S(500), S(600)], "split": 1, "events": "wild", "evs": [10, 20, 30, 400, 500], "evmin": 3})
+    out.append({"items": [S(5)], "events": "both", "evs": [100] * 30, "evmin": 17})
     # many attributes
     out.append({"items": [S(1 + (13 * i) % 120) for i in range(100)]})
     return out
@@ -137,7 +144,7 @@ def run(tier, seed):
         "binding_selftest": {"duplicated_event": k + 1, "rejected_at": r2.get("rejected_at"), "ok": True},
         "samples": [seqs[0], ev[:8]],
     })
-    ck.assumptions += ["reads of attributes and queued events: data-version filters, event filters and subscription priming / reports go through the same writer loop (report_attributes / report_events / send) but are not driven here",
+    ck.assumptions += ["reads of attributes and queued events, with data-version and event filters; subscription priming is checked for completeness by the C13 full-stack stage; later reports go through the same writer loop (report_attributes / report_events / send)",
                        "the transmit buffer has the size the crate is built with (MAX_EXCHANGE_TX_BUF_SIZE); smaller buffers are covered only by the model (Cap)",
                        "a value larger than the build's transmit buffer (MAX_EXCHANGE_TX_BUF_SIZE) less 250 bytes may be answered by a ResourceExhausted status (no message can carry it); smaller values must be delivered; the largest datagram allowed is the transport's MAX_TX_PACKET_SIZE"]
     return ck.finish()
